@@ -1,6 +1,56 @@
-(* C11 - SetValueForPath, Remove, RenameKey.  Statements only. *)
-From Mxj Require Import Model.TreeOps Proofs.KVTotal.
+(* C11 - SetValueForPath, Remove, RenameKey touch exactly one entry or fail cleanly.
+   Statements only; proofs in Proofs/C11P.v (key lists) and Proofs/C11Q.v (path strings),
+   vocabulary in Spec/MapPaths.v.
 
+   All theorems are about the model functions the correspondence check runs against /repo
+   on every case:   set_value_for_path m v path   remove_path m path   rename_key pf sep m path nn
+   with [path] an ARBITRARY string.  The only link between the string and its keys is the
+   decidable equation  split1 dot path = pre ++ [k]  (strings.Split(path,".") = parent keys ++
+   last key); every string has exactly one such decomposition (C11_path_decomp).
+
+   Vocabulary: [get_keys ks m] follows keys through nested maps only; [put_keys ks x m] is m with
+   the value at ks replaced by x and nothing else touched (every map on the way keeps its other
+   entries and their order); [diverge ks qs]: neither key list is a prefix of the other;
+   [plain_keys]: non-empty keys without '.', '[' and not "*" (the "dot-paths through nested
+   maps" of the property); [no_list_on ks m]: the walk along ks meets no list; [reportable v]:
+   v is not an empty list (always true on the property's domain, Maps without empty lists).
+
+   Fail-clean.  The model is functional: an operation returns EITHER [Ok m'] (the receiver
+   after the call) OR [Err e]; with an error no Map is produced, i.e. the receiver after the
+   call is the receiver before it.  Run/RunKV.v [check_case] checks exactly this against the
+   implementation on every case ("Err _, Fail _ _ => unchanged"), and the harness oracle
+   re-checks deep equality of the receiver whenever the implementation returns an error. *)
+From Mxj Require Import Model.TreeOps Spec.PathSem Spec.MapPaths Proofs.KVTotal Proofs.C11P Proofs.C11Q.
+
+(* ------------------------------------------------------------------ *)
+(* 0. path strings and key lists                                      *)
+(* ------------------------------------------------------------------ *)
+(* every path string splits into parent keys and a last key, in one way only *)
+Theorem C11_path_decomp : forall path, exists pre k, split1 dot path = pre ++ [k].
+Proof. exact path_decomp. Qed.
+Print Assumptions C11_path_decomp.
+
+Theorem C11_path_decomp_unique : forall path pre k pre' k',
+  split1 dot path = pre ++ [k] -> split1 dot path = pre' ++ [k'] -> pre = pre' /\ k = k'.
+Proof. exact path_decomp_unique. Qed.
+Print Assumptions C11_path_decomp_unique.
+
+(* the string is the "."-join of its keys, and no key contains a '.' *)
+Theorem C11_path_is_join : forall path pre k,
+  split1 dot path = pre ++ [k] ->
+  path = join sdot (pre ++ [k]) /\ dotfree (pre ++ [k]) /\ mem_ascii dot k = false.
+Proof. exact path_keys_bridge. Qed.
+Print Assumptions C11_path_is_join.
+
+(* conversely, keys without '.' joined by "." split back into themselves *)
+Theorem C11_join_splits_back : forall pre k,
+  dotfree (pre ++ [k]) -> split1 dot (join sdot (pre ++ [k])) = pre ++ [k].
+Proof. exact split_of_join. Qed.
+Print Assumptions C11_join_splits_back.
+
+(* ------------------------------------------------------------------ *)
+(* 1. no panic: every Map, every path string, every value / new name  *)
+(* ------------------------------------------------------------------ *)
 Theorem C11_set_no_panic : forall m v path, set_value_for_path m v path <> Panic.
 Proof. exact set_no_panic. Qed.
 Print Assumptions C11_set_no_panic.
@@ -13,9 +63,425 @@ Theorem C11_rename_no_panic : forall pf sep m path nn, rename_key pf sep m path 
 Proof. exact rename_no_panic. Qed.
 Print Assumptions C11_rename_no_panic.
 
-(* RenameKey refuses to overwrite an existing sibling at any depth, the top level included *)
+(* fail-clean, all inputs: the outcome is the Map after the call or an error, nothing else *)
+Theorem C11_set_ok_or_error : forall m v path,
+  (exists m', set_value_for_path m v path = Ok m') \/ (exists e, set_value_for_path m v path = Err e).
+Proof. exact set_result. Qed.
+Print Assumptions C11_set_ok_or_error.
+
+Theorem C11_remove_ok_or_error : forall m path,
+  (exists m', remove_path m path = Ok m') \/ remove_path m path = Err EOther.
+Proof. exact remove_result. Qed.
+Print Assumptions C11_remove_ok_or_error.
+
+Theorem C11_rename_ok_or_error : forall pf sep m path nn,
+  (exists m', rename_key pf sep m path nn = Ok m') \/ (exists e, rename_key pf sep m path nn = Err e).
+Proof. exact rename_result. Qed.
+Print Assumptions C11_rename_ok_or_error.
+
+(* ------------------------------------------------------------------ *)
+(* 2. SetValueForPath                                                 *)
+(* ------------------------------------------------------------------ *)
+(* the whole operation as one equation (all four clauses at once), on walks that meet no list:
+   map parent -> exactly one entry written; nil parent -> documented no-op; otherwise error *)
+Theorem C11_set_spec : forall m v path pre k,
+  split1 dot path = pre ++ [k] -> plain_keys pre -> no_list_on (pre ++ [k]) m = true ->
+  set_value_for_path m v path =
+  match get_keys pre m with
+  | Some (VMap c) => Ok (put_keys pre (VMap (set k v c)) m)
+  | Some VNil => Ok m
+  | _ => Err EOther
+  end.
+Proof. exact set_spec_path. Qed.
+Print Assumptions C11_set_spec.
+
+(* success + frame as an equation: whenever the parent is reached through maps and is a map,
+   whatever else the Map contains (lists elsewhere included) *)
+Theorem C11_set_ok : forall m v path pre k c,
+  split1 dot path = pre ++ [k] -> plain_keys pre -> get_keys pre m = Some (VMap c) ->
+  set_value_for_path m v path = Ok (put_keys pre (VMap (set k v c)) m).
+Proof. exact set_ok_path. Qed.
+Print Assumptions C11_set_ok.
+
+(* post-condition and frame, observably: the path now holds v (and below it what v holds);
+   the parent is the old parent with the one entry set; every key list that parts ways with the
+   path leads to the same value as before; the ancestors keep their key lists; distinct keys stay distinct *)
+Theorem C11_set_post_frame : forall m v path pre k c,
+  split1 dot path = pre ++ [k] -> plain_keys pre -> get_keys pre m = Some (VMap c) ->
+  exists m', set_value_for_path m v path = Ok m' /\
+    get_keys (pre ++ [k]) m' = Some v /\
+    (forall r, get_keys (pre ++ k :: r) m' = get_keys r v) /\
+    get_keys pre m' = Some (VMap (set k v c)) /\
+    (forall qs, diverge (pre ++ [k]) qs = true -> get_keys qs m' = get_keys qs m) /\
+    (forall qs r a, pre = qs ++ r -> r <> [] -> get_keys qs m = Some (VMap a) ->
+       exists a', get_keys qs m' = Some (VMap a') /\ map fst a' = map fst a) /\
+    (wfb m = true -> wfb v = true -> wfb m' = true).
+Proof. exact set_post_path. Qed.
+Print Assumptions C11_set_post_frame.
+
+(* frame "every other entry unchanged", for a successful call given as a hypothesis *)
+Theorem C11_set_frame : forall m v path pre k c m',
+  split1 dot path = pre ++ [k] -> plain_keys pre -> get_keys pre m = Some (VMap c) ->
+  set_value_for_path m v path = Ok m' ->
+  forall qs, diverge (pre ++ [k]) qs = true -> get_keys qs m' = get_keys qs m.
+Proof. exact set_frame_path. Qed.
+Print Assumptions C11_set_frame.
+
+(* post-condition through the library's own observers: ValuesForPath / ValueForPath / Exists on
+   the same path string after the call (a list value is reported as its members, as everywhere) *)
+Theorem C11_set_then_value : forall pf sep m v path pre k c m',
+  split1 dot path = pre ++ [k] -> plain_keys (pre ++ [k]) -> get_keys pre m = Some (VMap c) ->
+  set_value_for_path m v path = Ok m' ->
+  values_for_path pf sep m' path [] = Ok (final v) /\
+  value_for_path pf sep m' path = match final v with x :: _ => Ok x | [] => Err EOther end /\
+  exists_path pf sep m' path [] = Ok (reportable v).
+Proof. exact set_then_value_path. Qed.
+Print Assumptions C11_set_then_value.
+
+(* ... "ValueForPath(path) returns the new value" literally, for every new value that is not a list *)
+Corollary C11_set_then_value_nonlist : forall pf sep m v path pre k c m',
+  split1 dot path = pre ++ [k] -> plain_keys (pre ++ [k]) -> get_keys pre m = Some (VMap c) ->
+  is_list v = false ->
+  set_value_for_path m v path = Ok m' ->
+  value_for_path pf sep m' path = Ok v /\ exists_path pf sep m' path [] = Ok true.
+Proof. exact set_then_value_nonlist. Qed.
+Print Assumptions C11_set_then_value_nonlist.
+
+(* the literal reading fails for list values (first member / error for the empty list): kept as a counterexample *)
+Theorem C11_set_then_value_list_refuted :
+  exists m v path m',
+    is_list v = true /\ set_value_for_path m v path = Ok m' /\
+    value_for_path (fun _ => None) [":"%char] m' path = Ok (VInt 1) /\
+    value_for_path (fun _ => None) [":"%char] m' path <> Ok v /\
+    exists m2, set_value_for_path m (VList []) path = Ok m2 /\
+               value_for_path (fun _ => None) [":"%char] m2 path = Err EOther.
+Proof. exact set_then_value_list_refuted. Qed.
+Print Assumptions C11_set_then_value_list_refuted.
+
+(* documented no-op: a nil parent ("we just ignore the request"), the Map is returned as it was *)
+Theorem C11_set_nil_parent_noop : forall m v path pre k,
+  split1 dot path = pre ++ [k] -> plain_keys pre -> get_keys pre m = Some VNil ->
+  set_value_for_path m v path = Ok m.
+Proof. exact set_nil_noop_path. Qed.
+Print Assumptions C11_set_nil_parent_noop.
+
+(* success exactly when the parent is a map (or nil: no-op) *)
+Theorem C11_set_ok_iff : forall m v path pre k,
+  split1 dot path = pre ++ [k] -> plain_keys pre -> no_list_on (pre ++ [k]) m = true ->
+  (exists m', set_value_for_path m v path = Ok m') <->
+  ((exists c, get_keys pre m = Some (VMap c)) \/ get_keys pre m = Some VNil).
+Proof. exact set_ok_iff_path. Qed.
+Print Assumptions C11_set_ok_iff.
+
+(* fail-clean: missing parent, or a parent that is not a map (the pinned tree panicked here) -> error *)
+Theorem C11_set_fails : forall m v path pre k,
+  split1 dot path = pre ++ [k] -> plain_keys pre -> no_list_on (pre ++ [k]) m = true ->
+  match get_keys pre m with Some (VMap _) | Some VNil => False | _ => True end ->
+  set_value_for_path m v path = Err EOther.
+Proof. exact set_fails_path. Qed.
+Print Assumptions C11_set_fails.
+
+(* one-segment path (parent path ""): always succeeds on the top-level map *)
+Theorem C11_set_top : forall c v k,
+  mem_ascii dot k = false -> set_value_for_path (VMap c) v k = Ok (VMap (set k v c)).
+Proof. exact set_top. Qed.
+Print Assumptions C11_set_top.
+
+(* ------------------------------------------------------------------ *)
+(* 3. Remove: every Map, every path string - no side condition        *)
+(* ------------------------------------------------------------------ *)
+(* the whole operation as one equation: the parent reached through maps loses the one entry;
+   a missing key, a missing parent or a non-map parent give an error *)
+Theorem C11_remove_spec : forall m path pre k,
+  split1 dot path = pre ++ [k] ->
+  remove_path m path =
+  match get_keys pre m with
+  | Some (VMap c) => if has_key k c then Ok (put_keys pre (VMap (del k c)) m) else Err EOther
+  | _ => Err EOther
+  end.
+Proof. exact remove_spec_path. Qed.
+Print Assumptions C11_remove_spec.
+
+(* success exactly when the whole key list is found walking through maps ... *)
+Theorem C11_remove_ok_iff : forall m path,
+  (exists m', remove_path m path = Ok m') <-> get_keys (split1 dot path) m <> None.
+Proof. exact remove_ok_iff_anypath. Qed.
+Print Assumptions C11_remove_ok_iff.
+
+(* ... and an error otherwise (fail-clean: Remove of a missing path is an error, not a silent no-op) *)
+Theorem C11_remove_fail_iff : forall m path,
+  remove_path m path = Err EOther <-> get_keys (split1 dot path) m = None.
+Proof. exact remove_fail_iff_path. Qed.
+Print Assumptions C11_remove_fail_iff.
+
+(* post-condition: afterwards the key list is gone (Maps with distinct keys in every map) *)
+Theorem C11_remove_gone : forall m path pre k m',
+  split1 dot path = pre ++ [k] -> wfb m = true -> remove_path m path = Ok m' ->
+  get_keys (pre ++ [k]) m' = None.
+Proof. exact remove_gone_path. Qed.
+Print Assumptions C11_remove_gone.
+
+(* post-condition through the library's observer: Exists(path) is false afterwards *)
+Theorem C11_remove_post : forall pf sep m path pre k m',
+  split1 dot path = pre ++ [k] -> plain_keys (pre ++ [k]) -> wfb m = true ->
+  remove_path m path = Ok m' ->
+  get_keys (pre ++ [k]) m' = None /\ exists_path pf sep m' path [] = Ok false.
+Proof. exact remove_post_path. Qed.
+Print Assumptions C11_remove_post.
+
+(* frame: every key list that parts ways with the removed one leads to the same value *)
+Theorem C11_remove_frame : forall m path pre k m',
+  split1 dot path = pre ++ [k] -> remove_path m path = Ok m' ->
+  forall qs, diverge (pre ++ [k]) qs = true -> get_keys qs m' = get_keys qs m.
+Proof. exact remove_frame_path. Qed.
+Print Assumptions C11_remove_frame.
+
+(* frame: the parent afterwards is the parent before minus the one entry *)
+Theorem C11_remove_parent : forall m path pre k m',
+  split1 dot path = pre ++ [k] -> remove_path m path = Ok m' ->
+  exists c, get_keys pre m = Some (VMap c) /\ get_keys pre m' = Some (VMap (del k c)).
+Proof. exact remove_parent_path. Qed.
+Print Assumptions C11_remove_parent.
+
+(* frame: the maps above the parent keep their key lists *)
+Theorem C11_remove_ancestors : forall m path pre k m',
+  split1 dot path = pre ++ [k] -> remove_path m path = Ok m' ->
+  forall qs r a, pre = qs ++ r -> r <> [] -> get_keys qs m = Some (VMap a) ->
+  exists a', get_keys qs m' = Some (VMap a') /\ map fst a' = map fst a.
+Proof. exact remove_ancestors_path. Qed.
+Print Assumptions C11_remove_ancestors.
+
+(* distinct keys stay distinct *)
+Theorem C11_remove_wf : forall m path m', wfb m = true -> remove_path m path = Ok m' -> wfb m' = true.
+Proof. exact remove_wf_path. Qed.
+Print Assumptions C11_remove_wf.
+
+Theorem C11_remove_top : forall c k,
+  mem_ascii dot k = false ->
+  remove_path (VMap c) k = if has_key k c then Ok (VMap (del k c)) else Err EOther.
+Proof. exact remove_top. Qed.
+Print Assumptions C11_remove_top.
+
+(* ------------------------------------------------------------------ *)
+(* 4. RenameKey: every Map (no condition on lists), plain keys        *)
+(* ------------------------------------------------------------------ *)
+(* the whole operation as one equation: found + sibling free -> the one entry moves;
+   everything else (missing path, non-map parent, existing sibling) -> error *)
+Theorem C11_rename_spec : forall pf sep m path pre k nn,
+  split1 dot path = pre ++ [k] -> plain_keys (pre ++ [k]) -> plain_keyb nn = true ->
+  rename_key pf sep m path nn =
+  match get_keys pre m with
+  | Some (VMap c) =>
+      match lookup k c with
+      | Some v => if reportable v && sibling_free nn c
+                  then Ok (put_keys pre (VMap (del k (set nn v c))) m) else Err EOther
+      | None => Err EOther
+      end
+  | _ => Err EOther
+  end.
+Proof. exact rename_spec_path. Qed.
+Print Assumptions C11_rename_spec.
+
+(* success exactly when the key is there and the sibling is not *)
+Theorem C11_rename_ok_iff : forall pf sep m path pre k nn,
+  split1 dot path = pre ++ [k] -> plain_keys (pre ++ [k]) -> plain_keyb nn = true ->
+  (exists m', rename_key pf sep m path nn = Ok m') <->
+  (exists v, get_keys (pre ++ [k]) m = Some v /\ reportable v = true) /\
+  match get_keys (pre ++ [nn]) m with Some x => reportable x = false | None => True end.
+Proof. exact rename_ok_iff_path. Qed.
+Print Assumptions C11_rename_ok_iff.
+
+(* ... on the property's domain (no empty lists): old key list found, new key list absent *)
+Theorem C11_rename_ok_iff_noel : forall pf sep m path pre k nn,
+  split1 dot path = pre ++ [k] -> plain_keys (pre ++ [k]) -> plain_keyb nn = true ->
+  no_empty_lists m = true ->
+  (exists m', rename_key pf sep m path nn = Ok m') <->
+  get_keys (pre ++ [k]) m <> None /\ get_keys (pre ++ [nn]) m = None.
+Proof. exact rename_ok_iff_noel_path. Qed.
+Print Assumptions C11_rename_ok_iff_noel.
+
+(* refuses an existing sibling at any depth (pre arbitrary, pre = [] is the top level) *)
+Theorem C11_rename_refuses : forall pf sep m path pre k nn x,
+  split1 dot path = pre ++ [k] -> plain_keys (pre ++ [k]) -> plain_keyb nn = true ->
+  get_keys (pre ++ [nn]) m = Some x -> reportable x = true ->
+  rename_key pf sep m path nn = Err EOther.
+Proof. exact rename_refuses_path. Qed.
+Print Assumptions C11_rename_refuses.
+
+Corollary C11_rename_refuses_noel : forall pf sep m path pre k nn,
+  split1 dot path = pre ++ [k] -> plain_keys (pre ++ [k]) -> plain_keyb nn = true ->
+  no_empty_lists m = true -> get_keys (pre ++ [nn]) m <> None ->
+  rename_key pf sep m path nn = Err EOther.
+Proof. exact rename_refuses_noel_path. Qed.
+Print Assumptions C11_rename_refuses_noel.
+
+(* the top-level case written out: the pinned tree overwrote the sibling here *)
+Theorem C11_rename_top_refuses : forall pf sep c k nn x,
+  plain_keyb k = true -> plain_keyb nn = true ->
+  lookup nn c = Some x -> reportable x = true ->
+  rename_key pf sep (VMap c) k nn = Err EOther.
+Proof. exact rename_top_refuses. Qed.
+Print Assumptions C11_rename_top_refuses.
+
+(* the same refusal for every path and every new name whatsoever, in the library's own terms:
+   if Exists(parent.newName) then RenameKey does not succeed *)
 Theorem C11_rename_refuses_existing : forall pf sep m path nn,
   exists_path pf sep m (sibling_path path nn) [] = Ok true ->
   forall m', rename_key pf sep m path nn <> Ok m'.
 Proof. exact rename_refuses_existing. Qed.
 Print Assumptions C11_rename_refuses_existing.
+
+(* renaming a key to its own name is refused too *)
+Corollary C11_rename_same_name : forall pf sep m path pre k,
+  split1 dot path = pre ++ [k] -> plain_keys (pre ++ [k]) ->
+  forall m', rename_key pf sep m path k <> Ok m'.
+Proof. exact rename_same_name_path. Qed.
+Print Assumptions C11_rename_same_name.
+
+(* fail-clean: missing path -> error *)
+Theorem C11_rename_fails_missing : forall pf sep m path pre k nn,
+  split1 dot path = pre ++ [k] -> plain_keys (pre ++ [k]) -> plain_keyb nn = true ->
+  get_keys (pre ++ [k]) m = None ->
+  rename_key pf sep m path nn = Err EOther.
+Proof. exact rename_fails_missing_path. Qed.
+Print Assumptions C11_rename_fails_missing.
+
+(* post-condition: the value, with everything below it, is now under the new key, unchanged; the old key is gone *)
+Theorem C11_rename_moves : forall pf sep m path pre k nn m',
+  split1 dot path = pre ++ [k] -> plain_keys (pre ++ [k]) -> plain_keyb nn = true -> wfb m = true ->
+  rename_key pf sep m path nn = Ok m' ->
+  (forall r, get_keys (pre ++ nn :: r) m' = get_keys (pre ++ k :: r) m) /\
+  get_keys (pre ++ [nn]) m' = get_keys (pre ++ [k]) m /\
+  get_keys (pre ++ [k]) m <> None /\
+  get_keys (pre ++ [k]) m' = None.
+Proof. exact rename_moves_path. Qed.
+Print Assumptions C11_rename_moves.
+
+(* post-condition through the library's observers: the old path does not exist, the new one does,
+   and ValueForPath(new path) afterwards is ValueForPath(old path) before *)
+Theorem C11_rename_post : forall pf sep m path pre k nn m',
+  split1 dot path = pre ++ [k] -> plain_keys (pre ++ [k]) -> plain_keyb nn = true -> wfb m = true ->
+  rename_key pf sep m path nn = Ok m' ->
+  exists_path pf sep m' path [] = Ok false /\
+  exists_path pf sep m' (sibling_path path nn) [] = Ok true /\
+  value_for_path pf sep m' (sibling_path path nn) = value_for_path pf sep m path.
+Proof. exact rename_post_path. Qed.
+Print Assumptions C11_rename_post.
+
+(* frame: key lists that part ways with both the old and the new place lead to the same value *)
+Theorem C11_rename_frame : forall pf sep m path pre k nn m',
+  split1 dot path = pre ++ [k] -> plain_keys (pre ++ [k]) -> plain_keyb nn = true ->
+  rename_key pf sep m path nn = Ok m' ->
+  forall qs, diverge (pre ++ [k]) qs = true -> diverge (pre ++ [nn]) qs = true ->
+             get_keys qs m' = get_keys qs m.
+Proof. exact rename_frame_path. Qed.
+Print Assumptions C11_rename_frame.
+
+(* frame: the parent afterwards is the parent before with the one entry moved *)
+Theorem C11_rename_parent : forall pf sep m path pre k nn m',
+  split1 dot path = pre ++ [k] -> plain_keys (pre ++ [k]) -> plain_keyb nn = true ->
+  rename_key pf sep m path nn = Ok m' ->
+  exists c v, get_keys pre m = Some (VMap c) /\ lookup k c = Some v /\
+              get_keys pre m' = Some (VMap (del k (set nn v c))).
+Proof. exact rename_parent_path. Qed.
+Print Assumptions C11_rename_parent.
+
+Theorem C11_rename_ancestors : forall pf sep m path pre k nn m',
+  split1 dot path = pre ++ [k] -> plain_keys (pre ++ [k]) -> plain_keyb nn = true ->
+  rename_key pf sep m path nn = Ok m' ->
+  forall qs r a, pre = qs ++ r -> r <> [] -> get_keys qs m = Some (VMap a) ->
+  exists a', get_keys qs m' = Some (VMap a') /\ map fst a' = map fst a.
+Proof. exact rename_ancestors_path. Qed.
+Print Assumptions C11_rename_ancestors.
+
+Theorem C11_rename_wf : forall pf sep m path pre k nn m',
+  split1 dot path = pre ++ [k] -> plain_keys (pre ++ [k]) -> plain_keyb nn = true -> wfb m = true ->
+  rename_key pf sep m path nn = Ok m' -> wfb m' = true.
+Proof. exact rename_wf_path. Qed.
+Print Assumptions C11_rename_wf.
+
+Theorem C11_rename_top : forall pf sep c k nn,
+  plain_keyb k = true -> plain_keyb nn = true ->
+  rename_key pf sep (VMap c) k nn =
+  match lookup k c with
+  | Some v => if reportable v && sibling_free nn c then Ok (VMap (del k (set nn v c))) else Err EOther
+  | None => Err EOther
+  end.
+Proof. exact rename_top. Qed.
+Print Assumptions C11_rename_top.
+
+(* ------------------------------------------------------------------ *)
+(* non-vacuity: a Map with nested maps, a list and scalars; every     *)
+(* hypothesis of the theorems above is met by these inputs            *)
+(* ------------------------------------------------------------------ *)
+Local Open Scope string_scope.
+Local Open Scope list_scope.
+Definition nopf : str -> option flt := fun _ => None.
+Definition ex11 : value :=
+  VMap [(s"a", VMap [(s"b", VInt 1);
+                     (s"c", VMap [(s"d", VStr (s"x")); (s"e", VNil)]);
+                     (s"l", VList [VInt 1; VMap [(s"b", VInt 2)]])]);
+        (s"f", VInt 7);
+        (s"g", VMap [(s"b", VBool true)])].
+
+Example C11_ex_domain : no_empty_lists ex11 = true /\ wfb ex11 = true.
+Proof. vm_compute. split; reflexivity. Qed.
+
+(* Set at depth 3 below a map parent: hypotheses of C11_set_ok / _post_frame / _then_value, and the outcome *)
+Example C11_ex_set :
+  split1 dot (s"a.c.d") = [s"a"; s"c"] ++ [s"d"] /\
+  plain_keys ([s"a"; s"c"] ++ [s"d"]) /\ plain_keys [s"a"; s"c"] /\
+  no_list_on ([s"a"; s"c"] ++ [s"d"]) ex11 = true /\
+  get_keys [s"a"; s"c"] ex11 = Some (VMap [(s"d", VStr (s"x")); (s"e", VNil)]) /\
+  set_value_for_path ex11 (VMap [(s"n", VInt 5)]) (s"a.c.d") =
+    Ok (VMap [(s"a", VMap [(s"b", VInt 1);
+                           (s"c", VMap [(s"d", VMap [(s"n", VInt 5)]); (s"e", VNil)]);
+                           (s"l", VList [VInt 1; VMap [(s"b", VInt 2)]])]);
+              (s"f", VInt 7);
+              (s"g", VMap [(s"b", VBool true)])]) /\
+  diverge ([s"a"; s"c"] ++ [s"d"]) [s"a"; s"c"; s"e"] = true /\
+  diverge ([s"a"; s"c"] ++ [s"d"]) [s"g"; s"b"] = true.
+Proof. vm_compute. repeat split. Qed.
+
+(* Set: a new key is created; scalar parent and missing parent are errors; nil parent is the no-op *)
+Example C11_ex_set_cases :
+  (exists m', set_value_for_path ex11 (VInt 9) (s"g.new") = Ok m' /\ get_keys [s"g"; s"new"] m' = Some (VInt 9)) /\
+  get_keys [s"f"] ex11 = Some (VInt 7) /\ no_list_on ([s"f"] ++ [s"x"]) ex11 = true /\
+  set_value_for_path ex11 (VInt 9) (s"f.x") = Err EOther /\
+  get_keys [s"zz"] ex11 = None /\ no_list_on ([s"zz"] ++ [s"x"]) ex11 = true /\
+  set_value_for_path ex11 (VInt 9) (s"zz.x") = Err EOther /\
+  get_keys [s"a"; s"c"; s"e"] ex11 = Some VNil /\
+  set_value_for_path ex11 (VInt 9) (s"a.c.e.x") = Ok ex11.
+Proof. vm_compute. repeat split. eexists. split; reflexivity. Qed.
+
+(* Remove at depth 2; a missing key and a scalar on the way are errors *)
+Example C11_ex_remove :
+  split1 dot (s"a.b") = [s"a"] ++ [s"b"] /\ plain_keys ([s"a"] ++ [s"b"]) /\
+  remove_path ex11 (s"a.b") =
+    Ok (VMap [(s"a", VMap [(s"c", VMap [(s"d", VStr (s"x")); (s"e", VNil)]);
+                           (s"l", VList [VInt 1; VMap [(s"b", VInt 2)]])]);
+              (s"f", VInt 7);
+              (s"g", VMap [(s"b", VBool true)])]) /\
+  get_keys (split1 dot (s"a.zz")) ex11 = None /\ remove_path ex11 (s"a.zz") = Err EOther /\
+  get_keys (split1 dot (s"f.x")) ex11 = None /\ remove_path ex11 (s"f.x") = Err EOther /\
+  remove_path ex11 (s"a.l.b") = Err EOther.
+Proof. vm_compute. repeat split. Qed.
+
+(* Rename at depth 2 to a free name; onto an existing sibling at depth 2 and at the top level: refused *)
+Example C11_ex_rename :
+  split1 dot (s"a.c") = [s"a"] ++ [s"c"] /\ plain_keys ([s"a"] ++ [s"c"]) /\ plain_keyb (s"z") = true /\
+  get_keys ([s"a"] ++ [s"c"]) ex11 <> None /\ get_keys ([s"a"] ++ [s"z"]) ex11 = None /\
+  rename_key nopf (s":") ex11 (s"a.c") (s"z") =
+    Ok (VMap [(s"a", VMap [(s"b", VInt 1);
+                           (s"l", VList [VInt 1; VMap [(s"b", VInt 2)]]);
+                           (s"z", VMap [(s"d", VStr (s"x")); (s"e", VNil)])]);
+              (s"f", VInt 7);
+              (s"g", VMap [(s"b", VBool true)])]) /\
+  get_keys ([s"a"] ++ [s"b"]) ex11 = Some (VInt 1) /\ reportable (VInt 1) = true /\
+  rename_key nopf (s":") ex11 (s"a.c") (s"b") = Err EOther /\
+  split1 dot (s"f") = [] ++ [s"f"] /\ get_keys ([] ++ [s"g"]) ex11 <> None /\
+  rename_key nopf (s":") ex11 (s"f") (s"g") = Err EOther /\
+  rename_key nopf (s":") ex11 (s"f") (s"f") = Err EOther /\
+  rename_key nopf (s":") ex11 (s"zz") (s"y") = Err EOther /\
+  diverge ([s"a"] ++ [s"c"]) [s"a"; s"b"] = true /\ diverge ([s"a"] ++ [s"z"]) [s"a"; s"b"] = true.
+Proof. vm_compute. repeat split; discriminate. Qed.
